@@ -11,7 +11,8 @@ be what the BUILDER returns for the asset whose capacity PARAMETERS are multipli
   feasible set is `RescaledBaseFeasible a k`, its costs and mapping are those of `a` (`caps_problem_is_rescaled_base`);
 * for every LP builder of `EAO/Model/Contract.lean` and `EAO/Model/Storage.lean` and `k > 0`
   `build (capsTimes k p) = (build p).map (scaleProblemCaps k)` — equal as results: the same error, or problems equal in
-  every field (`simpleContract_caps`, `contract_caps`, `multi_caps`, `transport_caps`, `extTransport_caps`); for the
+  every field (`simpleContract_caps`, `contract_caps`, `multi_caps`, `transport_caps`, `extTransport_caps`, and the
+  `_keys` versions for capacities given as keys into the price data); for the
   storage in LP form the equation holds for EVERY `k` (`storage_caps`), with the constructor guards for `k > 0`
   (`mkStorage_caps`) and for `k ≥ 0` when the original passes them (`mkStorage_caps_nonneg`);
 * the cost vector is untouched in every case: capacities do not enter the costs; the storage's `cost_store` enters the
@@ -19,14 +20,21 @@ be what the BUILDER returns for the asset whose capacity PARAMETERS are multipli
   and the inflow, which would scale with `k`, is not part of `c` in either problem);
 * `k = 0` is different for contracts and transports: the decision between one and two variables per step, the sign of
   the costs and the constructor checks look at the SIGNS of the capacities, and at `k = 0` every sign test succeeds.  The
-  equation is false there (`caps_zero_*` witnesses); what is true: both problems force every variable to zero and have
-  value zero (`caps_zero_scaled_side`, `caps_zero_builder_side_*`);
+  equation is false there (kernel-checked witnesses (a)–(d) in `EAO.C16B.Ex` below); what is true: both problems force
+  every variable to zero and have value zero (`caps_zero_scaled_side`, `caps_zero_builder_side_*`);
 * joined with `scaled_fixed`: a ScaledAsset at fixed scale `s > 0` over builder X is builder X with capacities times
-  `s/norm`, less `s · fix_costs · duration` (`scaled_simpleContract`, `scaled_contract`, `scaled_multi`,
-  `scaled_transport`, `scaled_extTransport`, and `scaled_storage` for `s ≥ 0`).
+  `s/norm`, less `s · fix_costs · duration` (`scaled_simpleContract`, `scaled_contract`, `scaled_multi` and their `_keys`
+  forms, `scaled_transport`, `scaled_extTransport`, and `scaled_storage` for `s ≥ 0`).
 
-Capacities given as a KEY into the price data are excluded for contracts (`ParamValue.scale` leaves a key alone: the
-price data would have to be rescaled for exactly those keys), as in `EAO.C12.unit_change`.
+Capacities of a contract given as a KEY into the price data: `ParamValue.scale` leaves a key alone, the price data have
+to be rescaled for exactly those keys — `simpleContract_caps_keys`, `contract_caps_keys`, `multi_caps_keys` take a second
+price table related to the first by `CapsPrices`; the versions without `_keys` are the special case "no capacity is a
+key, same price data".
+
+Every hypothesis is shown necessary by a kernel-checked witness in `EAO.C16B.Ex`: `k > 0` (contracts, transports), the
+capacity series multiplied in the price data, `g.Ok`, and the LP form of the storage — with `no_simult_in_out` or
+`max_store_duration` the capacities are COEFFICIENTS of rows, which neither `scaleProblemCaps` nor the scaled asset
+multiplies (the storage instance of the known finding F-16c).
 -/
 namespace EAO.C16B
 open EAO EAO.Scaled EAO.ScaleBuild EAO.C16 EAO.Storage
@@ -74,34 +82,55 @@ theorem scaled_is_caps (sp : ScaledP) (base : AssetProblem) (dtSum : Rat) (x : V
 
 /-! ## the builders, `k > 0` -/
 
-/-- **SimpleContract.**  `min_cap`, `max_cap` (scalar, array or interval data) times `k > 0`: the builder returns the
-    same error, or the problem with all capacities times `k` — same costs (the choice between one and two variables per step and the sign of
-    the extra costs are decided by the signs of the capacities), same mapping, bounds times `k`. -/
-theorem simpleContract_caps {k : Rat} (hk : 0 < k) (p : ContractP) (hmin : p.minCap.isKey = false)
-    (hmax : p.maxCap.isKey = false) (g : Grid) (hg : g.Ok) (prices : Prices) (fullT : Nat) :
-    buildSimpleContract (p.capsTimes k) g prices fullT
+/-- **SimpleContract, capacities in any form.**  `min_cap`, `max_cap` times `k > 0` — scalars, arrays and interval data
+    in the parameters (`capsTimes`), series referred to by a key in the price data (`CapsPrices`: exactly the series used
+    as capacities are multiplied by `k`, the price and extra-cost series are the same): the builder returns the same
+    error, or the problem with all capacities times `k` — same costs (the choice between one and two variables per step
+    and the sign of the extra costs are decided by the signs of the capacities), same mapping, bounds times `k`. -/
+theorem simpleContract_caps_keys {k : Rat} (hk : 0 < k) (p : ContractP) (g : Grid) (hg : g.Ok)
+    (prices prices' : Prices) (hp : CapsPrices k p prices prices') (fullT : Nat) :
+    buildSimpleContract (p.capsTimes k) g prices' fullT
       = (buildSimpleContract p g prices fullT).map (scaleProblemCaps k) := by
-  rw [simple_caps' hk p hmin hmax]
+  rw [simple_caps' hk p g prices prices' fullT (capsData_of_prices k p g prices prices' fullT hp)]
   exact map_scaleAll_eq k _ (fun P h => ⟨(simpleContract_wf hg h).l_len, (simpleContract_wf hg h).u_len,
     simple_fullCap hg h⟩)
 
+/-- **SimpleContract** with capacities not given as keys: the same price data on both sides. -/
+theorem simpleContract_caps {k : Rat} (hk : 0 < k) (p : ContractP) (hmin : p.minCap.isKey = false)
+    (hmax : p.maxCap.isKey = false) (g : Grid) (hg : g.Ok) (prices : Prices) (fullT : Nat) :
+    buildSimpleContract (p.capsTimes k) g prices fullT
+      = (buildSimpleContract p g prices fullT).map (scaleProblemCaps k) :=
+  simpleContract_caps_keys hk p g hg prices prices (capsPrices_self k p hmin hmax prices) fullT
+
 /-- **Contract.**  Capacities and the volumes of `min_take`, `max_take` times `k > 0`: the take rows keep their
     coefficients, their right-hand sides are multiplied by `k`. -/
-theorem contract_caps {k : Rat} (hk : 0 < k) (p : ContractP) (hmin : p.minCap.isKey = false)
-    (hmax : p.maxCap.isKey = false) (g : Grid) (hg : g.Ok) (prices : Prices) (fullT u : Nat) :
-    buildContract (p.capsTimes k) g prices fullT u
+theorem contract_caps_keys {k : Rat} (hk : 0 < k) (p : ContractP) (g : Grid) (hg : g.Ok)
+    (prices prices' : Prices) (hp : CapsPrices k p prices prices') (fullT u : Nat) :
+    buildContract (p.capsTimes k) g prices' fullT u
       = (buildContract p g prices fullT u).map (scaleProblemCaps k) := by
-  rw [contract_caps' hk p hmin hmax]
+  rw [contract_caps' hk p g prices prices' fullT u (capsData_of_prices k p g prices prices' fullT hp)]
   exact map_scaleAll_eq k _ (fun P h => ⟨(contract_wf' hg h).l_len, (contract_wf' hg h).u_len,
     contract_fullCap hg h⟩)
 
+theorem contract_caps {k : Rat} (hk : 0 < k) (p : ContractP) (hmin : p.minCap.isKey = false)
+    (hmax : p.maxCap.isKey = false) (g : Grid) (hg : g.Ok) (prices : Prices) (fullT u : Nat) :
+    buildContract (p.capsTimes k) g prices fullT u
+      = (buildContract p g prices fullT u).map (scaleProblemCaps k) :=
+  contract_caps_keys hk p g hg prices prices (capsPrices_self k p hmin hmax prices) fullT u
+
 /-- **MultiCommodityContract** (the factors per node are not capacities). -/
+theorem multi_caps_keys {k : Rat} (hk : 0 < k) (p : ContractP) (factors : List Rat) (g : Grid) (hg : g.Ok)
+    (prices prices' : Prices) (hp : CapsPrices k p prices prices') (fullT u : Nat) :
+    buildMulti (p.capsTimes k) factors g prices' fullT u
+      = (buildMulti p factors g prices fullT u).map (scaleProblemCaps k) := by
+  rw [multi_caps' hk p factors g prices prices' fullT u (capsData_of_prices k p g prices prices' fullT hp)]
+  exact map_scaleAll_eq k _ (fun P h => ⟨(multi_wf' hg h).l_len, (multi_wf' hg h).u_len, multi_fullCap hg h⟩)
+
 theorem multi_caps {k : Rat} (hk : 0 < k) (p : ContractP) (factors : List Rat) (hmin : p.minCap.isKey = false)
     (hmax : p.maxCap.isKey = false) (g : Grid) (hg : g.Ok) (prices : Prices) (fullT u : Nat) :
     buildMulti (p.capsTimes k) factors g prices fullT u
-      = (buildMulti p factors g prices fullT u).map (scaleProblemCaps k) := by
-  rw [multi_caps' hk p factors hmin hmax]
-  exact map_scaleAll_eq k _ (fun P h => ⟨(multi_wf' hg h).l_len, (multi_wf' hg h).u_len, multi_fullCap hg h⟩)
+      = (buildMulti p factors g prices fullT u).map (scaleProblemCaps k) :=
+  multi_caps_keys hk p factors g hg prices prices (capsPrices_self k p hmin hmax prices) fullT u
 
 /-- **Transport.**  `min_cap`, `max_cap` times `k > 0` (efficiency and costs untouched). -/
 theorem transport_caps {k : Rat} (hk : 0 < k) (p : TransportP) (g : Grid) (hg : g.Ok) (prices : Prices)
@@ -203,9 +232,24 @@ theorem caps_zero_builder_side_extTransport (p : TransportP) (g : Grid) (hg : g.
 /-! ## joined with `scaled_fixed`: a scaled asset over builder X at fixed scale -/
 
 /-- **ScaledAsset over a SimpleContract at scale `s > 0`.**  Let `base` be what the contract's builder returns on a
-    grid with steps.  Then the builder succeeds for the contract with capacities times `s/norm`, and a point `(x, s)`
-    is feasible for the scaled problem iff `x` is feasible for THAT contract's problem; the value is that contract's
-    value less `s · fix_costs · Σdt`. -/
+    grid with steps.  Then the builder succeeds for the contract with capacities times `s/norm` (price data `prices'`
+    with the capacity series times `s/norm`, `CapsPrices`), and a point `(x, s)` is feasible for the scaled problem iff
+    `x` is feasible for THAT contract's problem; the value is that contract's value less `s · fix_costs · Σdt`. -/
+theorem scaled_simpleContract_keys (sp : ScaledP) (p : ContractP) (g : Grid) (hg : g.Ok) (hT : g.T ≠ 0)
+    (prices prices' : Prices) (fullT : Nat)
+    (base : AssetProblem) (hb : buildSimpleContract p g prices fullT = .ok base) (x : Vec) (s : Rat)
+    (hp : CapsPrices (s / sp.normScale) p prices prices')
+    (hnorm : 0 < sp.normScale) (hs : 0 < s) (hlo : sp.minScale ≤ s) (hhi : s ≤ sp.maxScale) (hxs : x base.n = s) :
+    ∃ base', buildSimpleContract (p.capsTimes (s / sp.normScale)) g prices' fullT = .ok base' ∧
+      ((buildScaled sp base (activeDuration g)).FeasibleRelaxed x ↔ base'.FeasibleRelaxed x) ∧
+      - costAt (buildScaled sp base (activeDuration g)).c 0 x
+        = - costAt base'.c 0 x - s * sp.fixCosts * activeDuration g := by
+  obtain ⟨h1, h2, h3, h4⟩ := builtWf_hyps (simpleContract_wf hg hb) hT
+  refine ⟨scaleProblemCaps (s / sp.normScale) base, ?_,
+    scaled_is_caps sp base _ x s h1 h2 h3 h4 hnorm (Rat.le_of_lt hs) hlo hhi hxs⟩
+  rw [simpleContract_caps_keys (div_pos' hs hnorm) p g hg prices prices' hp, hb]; rfl
+
+/-- … capacities not given as keys: the same price data -/
 theorem scaled_simpleContract (sp : ScaledP) (p : ContractP) (hmin : p.minCap.isKey = false)
     (hmax : p.maxCap.isKey = false) (g : Grid) (hg : g.Ok) (hT : g.T ≠ 0) (prices : Prices) (fullT : Nat)
     (base : AssetProblem) (hb : buildSimpleContract p g prices fullT = .ok base) (x : Vec) (s : Rat)
@@ -213,13 +257,25 @@ theorem scaled_simpleContract (sp : ScaledP) (p : ContractP) (hmin : p.minCap.is
     ∃ base', buildSimpleContract (p.capsTimes (s / sp.normScale)) g prices fullT = .ok base' ∧
       ((buildScaled sp base (activeDuration g)).FeasibleRelaxed x ↔ base'.FeasibleRelaxed x) ∧
       - costAt (buildScaled sp base (activeDuration g)).c 0 x
-        = - costAt base'.c 0 x - s * sp.fixCosts * activeDuration g := by
-  obtain ⟨h1, h2, h3, h4⟩ := builtWf_hyps (simpleContract_wf hg hb) hT
-  refine ⟨scaleProblemCaps (s / sp.normScale) base, ?_,
-    scaled_is_caps sp base _ x s h1 h2 h3 h4 hnorm (Rat.le_of_lt hs) hlo hhi hxs⟩
-  rw [simpleContract_caps (div_pos' hs hnorm) p hmin hmax g hg, hb]; rfl
+        = - costAt base'.c 0 x - s * sp.fixCosts * activeDuration g :=
+  scaled_simpleContract_keys sp p g hg hT prices prices fullT base hb x s (capsPrices_self _ p hmin hmax prices)
+    hnorm hs hlo hhi hxs
 
 /-- **ScaledAsset over a Contract** (take periods) at scale `s > 0`: capacities AND take volumes times `s/norm`. -/
+theorem scaled_contract_keys (sp : ScaledP) (p : ContractP) (g : Grid) (hg : g.Ok) (hT : g.T ≠ 0)
+    (prices prices' : Prices) (fullT u : Nat)
+    (base : AssetProblem) (hb : buildContract p g prices fullT u = .ok base) (x : Vec) (s : Rat)
+    (hp : CapsPrices (s / sp.normScale) p prices prices')
+    (hnorm : 0 < sp.normScale) (hs : 0 < s) (hlo : sp.minScale ≤ s) (hhi : s ≤ sp.maxScale) (hxs : x base.n = s) :
+    ∃ base', buildContract (p.capsTimes (s / sp.normScale)) g prices' fullT u = .ok base' ∧
+      ((buildScaled sp base (activeDuration g)).FeasibleRelaxed x ↔ base'.FeasibleRelaxed x) ∧
+      - costAt (buildScaled sp base (activeDuration g)).c 0 x
+        = - costAt base'.c 0 x - s * sp.fixCosts * activeDuration g := by
+  obtain ⟨h1, h2, h3, h4⟩ := builtWf_hyps (contract_wf' hg hb) hT
+  refine ⟨scaleProblemCaps (s / sp.normScale) base, ?_,
+    scaled_is_caps sp base _ x s h1 h2 h3 h4 hnorm (Rat.le_of_lt hs) hlo hhi hxs⟩
+  rw [contract_caps_keys (div_pos' hs hnorm) p g hg prices prices' hp, hb]; rfl
+
 theorem scaled_contract (sp : ScaledP) (p : ContractP) (hmin : p.minCap.isKey = false)
     (hmax : p.maxCap.isKey = false) (g : Grid) (hg : g.Ok) (hT : g.T ≠ 0) (prices : Prices) (fullT u : Nat)
     (base : AssetProblem) (hb : buildContract p g prices fullT u = .ok base) (x : Vec) (s : Rat)
@@ -227,13 +283,25 @@ theorem scaled_contract (sp : ScaledP) (p : ContractP) (hmin : p.minCap.isKey = 
     ∃ base', buildContract (p.capsTimes (s / sp.normScale)) g prices fullT u = .ok base' ∧
       ((buildScaled sp base (activeDuration g)).FeasibleRelaxed x ↔ base'.FeasibleRelaxed x) ∧
       - costAt (buildScaled sp base (activeDuration g)).c 0 x
-        = - costAt base'.c 0 x - s * sp.fixCosts * activeDuration g := by
-  obtain ⟨h1, h2, h3, h4⟩ := builtWf_hyps (contract_wf' hg hb) hT
-  refine ⟨scaleProblemCaps (s / sp.normScale) base, ?_,
-    scaled_is_caps sp base _ x s h1 h2 h3 h4 hnorm (Rat.le_of_lt hs) hlo hhi hxs⟩
-  rw [contract_caps (div_pos' hs hnorm) p hmin hmax g hg, hb]; rfl
+        = - costAt base'.c 0 x - s * sp.fixCosts * activeDuration g :=
+  scaled_contract_keys sp p g hg hT prices prices fullT u base hb x s (capsPrices_self _ p hmin hmax prices)
+    hnorm hs hlo hhi hxs
 
 /-- **ScaledAsset over a MultiCommodityContract** at scale `s > 0`. -/
+theorem scaled_multi_keys (sp : ScaledP) (p : ContractP) (factors : List Rat) (g : Grid) (hg : g.Ok) (hT : g.T ≠ 0)
+    (prices prices' : Prices) (fullT u : Nat)
+    (base : AssetProblem) (hb : buildMulti p factors g prices fullT u = .ok base) (x : Vec) (s : Rat)
+    (hp : CapsPrices (s / sp.normScale) p prices prices')
+    (hnorm : 0 < sp.normScale) (hs : 0 < s) (hlo : sp.minScale ≤ s) (hhi : s ≤ sp.maxScale) (hxs : x base.n = s) :
+    ∃ base', buildMulti (p.capsTimes (s / sp.normScale)) factors g prices' fullT u = .ok base' ∧
+      ((buildScaled sp base (activeDuration g)).FeasibleRelaxed x ↔ base'.FeasibleRelaxed x) ∧
+      - costAt (buildScaled sp base (activeDuration g)).c 0 x
+        = - costAt base'.c 0 x - s * sp.fixCosts * activeDuration g := by
+  obtain ⟨h1, h2, h3, h4⟩ := builtWf_hyps (multi_wf' hg hb) hT
+  refine ⟨scaleProblemCaps (s / sp.normScale) base, ?_,
+    scaled_is_caps sp base _ x s h1 h2 h3 h4 hnorm (Rat.le_of_lt hs) hlo hhi hxs⟩
+  rw [multi_caps_keys (div_pos' hs hnorm) p factors g hg prices prices' hp, hb]; rfl
+
 theorem scaled_multi (sp : ScaledP) (p : ContractP) (factors : List Rat) (hmin : p.minCap.isKey = false)
     (hmax : p.maxCap.isKey = false) (g : Grid) (hg : g.Ok) (hT : g.T ≠ 0) (prices : Prices) (fullT u : Nat)
     (base : AssetProblem) (hb : buildMulti p factors g prices fullT u = .ok base) (x : Vec) (s : Rat)
@@ -241,11 +309,9 @@ theorem scaled_multi (sp : ScaledP) (p : ContractP) (factors : List Rat) (hmin :
     ∃ base', buildMulti (p.capsTimes (s / sp.normScale)) factors g prices fullT u = .ok base' ∧
       ((buildScaled sp base (activeDuration g)).FeasibleRelaxed x ↔ base'.FeasibleRelaxed x) ∧
       - costAt (buildScaled sp base (activeDuration g)).c 0 x
-        = - costAt base'.c 0 x - s * sp.fixCosts * activeDuration g := by
-  obtain ⟨h1, h2, h3, h4⟩ := builtWf_hyps (multi_wf' hg hb) hT
-  refine ⟨scaleProblemCaps (s / sp.normScale) base, ?_,
-    scaled_is_caps sp base _ x s h1 h2 h3 h4 hnorm (Rat.le_of_lt hs) hlo hhi hxs⟩
-  rw [multi_caps (div_pos' hs hnorm) p factors hmin hmax g hg, hb]; rfl
+        = - costAt base'.c 0 x - s * sp.fixCosts * activeDuration g :=
+  scaled_multi_keys sp p factors g hg hT prices prices fullT u base hb x s (capsPrices_self _ p hmin hmax prices)
+    hnorm hs hlo hhi hxs
 
 /-- **ScaledAsset over a Transport** at scale `s > 0`. -/
 theorem scaled_transport (sp : ScaledP) (p : TransportP) (g : Grid) (hg : g.Ok) (hT : g.T ≠ 0) (prices : Prices)
@@ -293,3 +359,222 @@ theorem scaled_storage (sp : ScaledP) (p : StorageP) (hns : hasNS p = false) (hh
   rw [storage_caps _ p hns hh, hb]; rfl
 
 end EAO.C16B
+
+/-! ### non-vacuity and witnesses (evaluated by the kernel) -/
+namespace EAO.C16B.Ex
+open EAO EAO.Scaled EAO.ScaleBuild EAO.C16 EAO.C16B EAO.Storage
+
+/-- unequal steps: 1 h and 3 h, discounting -/
+def g2 : Grid := { pts := [0, 3600], idx := [0, 1], dt := [1, 3], Dt := [1, 4], df := [1, 1/2] }
+
+/-- buys and sells (two variables per step), extra costs, a price series, a maximum take in the first hour and a
+    minimum take over 8 h of which 4 h lie in the grid -/
+def p : ContractP :=
+  { name := "c", nodes := ["n"], price := some "pr", extraCosts := .scalar 1, minCap := .scalar (-2),
+    maxCap := .array [3, 2], minTake := [(0, 28800, 4)], maxTake := [(0, 3600, 5)] }
+def prices : Prices := [("pr", [10, 20])]
+
+example : g2.Ok ∧ g2.T ≠ 0 ∧ p.minCap.isKey = false ∧ p.maxCap.isKey = false ∧ (0 : Rat) < 1/2 := by decide +kernel
+
+-- instance of `contract_caps`, and both sides are real problems: bounds and take volumes halved, costs unchanged
+example : buildContract (p.capsTimes (1/2)) g2 prices 2 3600
+    = (buildContract p g2 prices 2 3600).map (scaleProblemCaps (1/2)) :=
+  contract_caps (by decide +kernel) p (by decide) (by decide) g2 (by decide +kernel) prices 2 3600
+example : (match buildContract p g2 prices 2 3600 with
+    | .ok P => P.n == 4 && P.l == [-2, -6, 0, 0] && P.u == [0, 0, 3, 6] && P.rows.map (·.rhs) == [5, 2] &&
+               P.c == [9, 19/2, 11, 21/2]
+    | .error _ => false) = true := by decide +kernel
+example : (match buildContract (p.capsTimes (1/2)) g2 prices 2 3600 with
+    | .ok P => P.n == 4 && P.l == [-1, -3, 0, 0] && P.u == [0, 0, 3/2, 3] && P.rows.map (·.rhs) == [5/2, 1] &&
+               P.c == [9, 19/2, 11, 21/2]
+    | .error _ => false) = true := by decide +kernel
+
+/-- the contract's problem as a term -/
+def base : AssetProblem := match buildContract p g2 prices 2 3600 with | .ok P => P | .error _ => default
+theorem base_ok : buildContract p g2 prices 2 3600 = .ok base := by
+  unfold base
+  cases h : buildContract p g2 prices 2 3600 with
+  | ok P => rfl
+  | error e =>
+    have : (buildContract p g2 prices 2 3600).isOk = true := by decide +kernel
+    rw [h] at this; cases this
+
+/-- scale 1 of norm 2 (range [0, 2], fixed costs 3 per unit of scale and time) -/
+def sp : ScaledP := { name := "s", node0 := "n", minScale := 0, maxScale := 2, normScale := 2, fixCosts := 3 }
+def x : Vec := fun j => if j = 2 then 1 else if j = 3 then 1 else if j = 4 then 1 else 0
+
+-- the hypotheses of `scaled_contract` hold, the point is feasible for the scaled problem …
+example : x base.n = 1 ∧ (0 : Rat) < sp.normScale ∧ sp.minScale ≤ 1 ∧ (1 : Rat) ≤ sp.maxScale ∧
+    (buildScaled sp base (activeDuration g2)).FeasibleRelaxed x ∧
+    - costAt (buildScaled sp base (activeDuration g2)).c 0 x = -67/2 := by decide +kernel
+-- … and for the contract with capacities times 1/2, whose value is 12 higher (fixed costs 1 · 3 · 4 h)
+example : (match buildContract (p.capsTimes (1 / 2)) g2 prices 2 3600 with
+    | .ok P => decide (P.FeasibleRelaxed x) && decide (- costAt P.c 0 x = -43/2)
+    | .error _ => false) = true := by decide +kernel
+example := scaled_contract sp p (by decide) (by decide) g2 (by decide +kernel) (by decide +kernel) prices 2 3600 base
+  base_ok x 1 (by decide +kernel) (by decide +kernel) (by decide +kernel) (by decide +kernel) (by decide +kernel)
+
+
+/-! #### simple contract, multi-commodity contract -/
+
+example : buildSimpleContract (p.capsTimes 3) g2 prices 2 = (buildSimpleContract p g2 prices 2).map (scaleProblemCaps 3) :=
+  simpleContract_caps (by decide +kernel) p (by decide) (by decide) g2 (by decide +kernel) prices 2
+example : (match buildSimpleContract (p.capsTimes 3) g2 prices 2 with
+    | .ok P => P.l == [-6, -18, 0, 0] && P.u == [0, 0, 9, 18] && P.rows.isEmpty
+    | .error _ => false) = true := by decide +kernel
+
+/-- two commodities with factors 1 and −1/2 -/
+def pm : ContractP := { p with nodes := ["n", "m"] }
+example : buildMulti (pm.capsTimes 3) [1, -1/2] g2 prices 2 3600
+    = (buildMulti pm [1, -1/2] g2 prices 2 3600).map (scaleProblemCaps 3) :=
+  multi_caps (by decide +kernel) pm [1, -1/2] (by decide) (by decide) g2 (by decide +kernel) prices 2 3600
+example : (match buildMulti (pm.capsTimes 3) [1, -1/2] g2 prices 2 3600 with
+    | .ok P => P.u == [0, 0, 9, 18] && P.rows.map (·.rhs) == [15, 6] && P.mapping.length == 8
+    | .error _ => false) = true := by decide +kernel
+
+/-! #### transports -/
+
+/-- flows a → b only, costs on the flow, a maximum take in the first hour and a minimum over both steps -/
+def pt : TransportP :=
+  { name := "t", nodes := ["a", "b"], costsConst := 1, costsKey := none, minCap := 0, maxCap := 4,
+    efficiency := 9/10, minTake := [(0, 7200, 2)], maxTake := [(0, 3600, 3)] }
+
+example : buildExtTransport (pt.capsTimes (1/4)) g2 [] 2 3600
+    = (buildExtTransport pt g2 [] 2 3600).map (scaleProblemCaps (1/4)) :=
+  extTransport_caps (by decide +kernel) pt g2 (by decide +kernel) [] 2 3600
+example : buildTransport (pt.capsTimes (1/4)) g2 [] 2 = (buildTransport pt g2 [] 2).map (scaleProblemCaps (1/4)) :=
+  transport_caps (by decide +kernel) pt g2 (by decide +kernel) [] 2
+example : (match buildExtTransport pt g2 [] 2 3600 with
+    | .ok P => P.u == [4, 12] && P.c == [1, 1/2] && P.rows.map (·.rhs) == [-3, -4]
+    | .error _ => false) = true := by decide +kernel
+example : (match buildExtTransport (pt.capsTimes (1/4)) g2 [] 2 3600 with
+    | .ok P => P.u == [1, 3] && P.c == [1, 1/2] && P.rows.map (·.rhs) == [-3/4, -1]
+    | .error _ => false) = true := by decide +kernel
+
+/-! #### storage -/
+
+/-- the storage's window covers steps 2…5 of a horizon of 8 steps of 1/4 day -/
+def gs : Grid := { pts := [43200, 64800, 86400, 108000], idx := [2, 3, 4, 5], dt := [1/4, 1/4, 1/4, 1/4],
+                   Dt := [3/4, 1, 5/4, 3/2], df := [1, 1, 1, 1/2] }
+
+/-- LP form with everything else switched on: two nodes, efficiency, costs of discharging and of storing, inflow,
+    blocks -/
+def ps : StorageP :=
+  { name := "s", nodes := ["a", "b"], size := 4, capIn := 8, capOut := 6, startLevel := 1, endLevel := 2,
+    costIn := 0, costOut := 1/8, costStore := 6, effIn := 1/2, inflow := 1, price := none,
+    noSimult := false, maxStoreDuration := none, blocks := some [0, 2] }
+
+example : hasNS ps = false ∧ ps.maxStoreDuration = none ∧ ps.guards = true ∧ gs.Ok ∧ gs.T ≠ 0 := by decide +kernel
+
+example : buildStorage (ps.capsTimes 3) gs 8 [] = (buildStorage ps gs 8 []).map (scaleProblemCaps 3) :=
+  storage_caps 3 ps (by decide +kernel) (by decide +kernel) gs 8 []
+example : mkStorage (ps.capsTimes 0) gs 8 [] = (mkStorage ps gs 8 []).map (scaleProblemCaps 0) :=
+  mkStorage_caps_nonneg (by decide +kernel) ps (by decide +kernel) (by decide +kernel) (by decide +kernel) gs 8 []
+example : (match buildStorage ps gs 8 [] with
+    | .ok P => P.n == 8 && P.l == [-2, -2, -2, -2, 0, 0, 0, 0] && P.u == [0, 0, 0, 0, 3/2, 3/2, 3/2, 3/2] &&
+               P.rows.map (·.rhs) == [11/4, 1/2, 7/4, -1/2, -5/4, 1/2, -9/4, -1/2] && P.c.take 2 == [-21/8, -15/8]
+    | .error _ => false) = true := by decide +kernel
+example : (match buildStorage (ps.capsTimes 3) gs 8 [] with
+    | .ok P => P.n == 8 && P.l == [-6, -6, -6, -6, 0, 0, 0, 0] && P.u == [0, 0, 0, 0, 9/2, 9/2, 9/2, 9/2] &&
+               P.rows.map (·.rhs) == [33/4, 3/2, 21/4, -3/2, -15/4, 3/2, -27/4, -3/2] && P.c.take 2 == [-21/8, -15/8]
+    | .error _ => false) = true := by decide +kernel
+
+/-! #### `k = 0`: the equation fails for contracts and transports -/
+
+/-- number of variables, cost vector and bounds of a result (`none`: an error) -/
+def shape (r : Except BuildError AssetProblem) : Option (Nat × List Rat × List Rat × List Rat) :=
+  match r with
+  | .ok P => some (P.n, P.c, P.l, P.u)
+  | .error _ => none
+
+-- (a) a contract that buys and sells with extra costs has two variables per step; with all capacities 0 the builder
+--     returns ONE variable per step
+example : shape (buildSimpleContract (p.capsTimes 0) g2 prices 2) = some (2, [10, 10], [0, 0], [0, 0]) ∧
+    shape ((buildSimpleContract p g2 prices 2).map (scaleProblemCaps 0))
+      = some (4, [9, 19/2, 11, 21/2], [0, 0, 0, 0], [0, 0, 0, 0]) := by decide +kernel
+
+/-- (b) a contract that only buys: one variable per step, price less extra costs -/
+def pBuy : ContractP := { p with minCap := .scalar (-2), maxCap := .scalar 0, minTake := [], maxTake := [] }
+-- with capacities 0 both sign tests succeed, the extra costs are subtracted AND added: a different cost vector
+example : shape (buildSimpleContract (pBuy.capsTimes 0) g2 prices 2) = some (2, [10, 10], [0, 0], [0, 0]) ∧
+    shape ((buildSimpleContract pBuy g2 prices 2).map (scaleProblemCaps 0)) = some (2, [9, 19/2], [0, 0], [0, 0]) := by
+  decide +kernel
+
+/-- (c) `min_cap > max_cap` is refused by the constructor — but not after multiplication by 0 -/
+def pBad : ContractP := { pBuy with minCap := .scalar 3, maxCap := .scalar 2 }
+example : shape (buildSimpleContract pBad g2 prices 2) = none ∧
+    shape (buildSimpleContract (pBad.capsTimes 0) g2 prices 2) = some (2, [10, 10], [0, 0], [0, 0]) := by
+  decide +kernel
+
+-- (d) transport: with capacities 0 "all capacities ≤ 0" holds and the costs change sign
+example : shape (buildTransport (pt.capsTimes 0) g2 [] 2) = some (2, [-1, -1/2], [0, 0], [0, 0]) ∧
+    shape ((buildTransport pt g2 [] 2).map (scaleProblemCaps 0)) = some (2, [1, 1/2], [0, 0], [0, 0]) := by
+  decide +kernel
+
+-- what is true at `k = 0` (instances of `caps_zero_builder_side_simpleContract`, `caps_zero_scaled_side`): the zero
+-- point is feasible for both, of value 0
+example : (match buildSimpleContract (p.capsTimes 0) g2 prices 2 with
+    | .ok P => decide (P.FeasibleRelaxed (fun _ => 0)) && decide (- costAt P.c 0 (fun _ => 0) = 0)
+    | .error _ => false) = true := by decide +kernel
+
+/-! #### the hypotheses are needed -/
+
+/-- a capacity given as a key into the price data is not touched by `capsTimes` … -/
+def pKey : ContractP := { pBuy with minCap := .key "cap", maxCap := .scalar 0 }
+def pricesKey : Prices := [("pr", [10, 20]), ("cap", [-2, -1])]
+example : pKey.minCap.isKey = true ∧
+    shape (buildSimpleContract (pKey.capsTimes 3) g2 pricesKey 2) = some (2, [9, 19/2], [-2, -3], [0, 0]) ∧
+    shape ((buildSimpleContract pKey g2 pricesKey 2).map (scaleProblemCaps 3)) = some (2, [9, 19/2], [-6, -9], [0, 0]) := by
+  decide +kernel
+
+/-- … the series has to be multiplied in the price data (instance of `simpleContract_caps_keys`) -/
+def pricesKey3 : Prices := [("pr", [10, 20]), ("cap", [-6, -3])]
+theorem capsPrices_ex : CapsPrices 3 pKey pricesKey pricesKey3 := by
+  constructor
+  · rintro key (h | h)
+    · have h' : ParamValue.key "cap" = ParamValue.key key := h
+      injection h' with h'
+      subst h'
+      decide +kernel
+    · have h' : ParamValue.scalar 0 = ParamValue.key key := h
+      cases h'
+  · rintro key (h | h)
+    · have h' : some "pr" = some key := h
+      injection h' with h'
+      subst h'
+      decide +kernel
+    · have h' : ParamValue.scalar 1 = ParamValue.key key := h
+      cases h'
+example : buildSimpleContract (pKey.capsTimes 3) g2 pricesKey3 2
+    = (buildSimpleContract pKey g2 pricesKey 2).map (scaleProblemCaps 3) :=
+  simpleContract_caps_keys (by decide +kernel) pKey g2 (by decide +kernel) pricesKey pricesKey3 capsPrices_ex 2
+example : shape (buildSimpleContract (pKey.capsTimes 3) g2 pricesKey3 2) = some (2, [9, 19/2], [-6, -9], [0, 0]) := by
+  decide +kernel
+
+/-- a malformed grid (`I` shorter than the point list; no constructor of the model or the code makes one): bounds
+    without a variable are scaled by the builder but are not capacity variables of the finished problem -/
+def gBad : Grid := { pts := [0, 3600], idx := [0], dt := [1, 3], Dt := [1, 4], df := [1, 1/2] }
+example : ¬ gBad.Ok ∧
+    shape (buildSimpleContract (pBuy.capsTimes 3) gBad prices 2) = some (1, [9], [-6, -18], [0, 0]) ∧
+    shape ((buildSimpleContract pBuy gBad prices 2).map (scaleProblemCaps 3)) = some (1, [9], [-6, -6], [0, 0]) := by
+  decide +kernel
+
+/-- storage with `no_simult_in_out`: the capacities are COEFFICIENTS of the exclusivity rows (the builder multiplies them,
+    the rescaled finished problem — and the scaled asset, known finding F-16c — does not) -/
+def psNS : StorageP := { ps with noSimult := true, blocks := none }
+def coeffsOf (r : Except BuildError AssetProblem) : List (List (Nat × Rat)) :=
+  match r with
+  | .ok P => P.rows.map (·.coeffs)
+  | .error _ => []
+example : hasNS psNS = true ∧
+    ((coeffsOf (buildStorage (psNS.capsTimes 3) gs 8 [])).getD 8 [] = [(0, 1), (8, -6)]) ∧
+    ((coeffsOf ((buildStorage psNS gs 8 []).map (scaleProblemCaps 3))).getD 8 [] = [(0, 1), (8, -2)]) := by
+  decide +kernel
+
+/-- storage with `max_store_duration`: the level limit is a coefficient of the indicator in the "full" rows -/
+def psHold : StorageP := { ps with maxStoreDuration := some (1/2), blocks := none }
+example : ((coeffsOf (buildStorage (psHold.capsTimes 3) gs 8 [])).getD 0 [] = [(0, -1/2), (4, -1), (8, -12)]) ∧
+    ((coeffsOf ((buildStorage psHold gs 8 []).map (scaleProblemCaps 3))).getD 0 [] = [(0, -1/2), (4, -1), (8, -4)]) := by
+  decide +kernel
+
+end EAO.C16B.Ex
